@@ -31,7 +31,8 @@ THEOREMS = ["C18_json_strict", "C18_json_values", "C18_json_value_map", "C18_csv
             "C18_excel_rows", "C18_df", "C18_df_roundtrip", "C18_df_roundtrip_norows", "C18_units_places",
             "C18_units_recognised", "C18_units_recognised_all", "C18_units_table_disjoint", "C18_units_listed",
             "C18_units_recognised_ascii_case", "C18_units_conflict",
-            "C18_units_unrecognised", "C18_units_table_current", "C18_depth_consistent"]
+            "C18_units_unrecognised", "C18_units_table_current", "C18_depth_consistent",
+            "C18_json_value_current", "C18_json_sample_current"]
 ASSUMPTIONS = [
     "oracle: the json module serialises str/int/float/None/dict/list natively, sends other objects to "
     "JSONEncoder.default, writes a float with float.__repr__ and json.loads reads that text back as the same "
